@@ -346,3 +346,81 @@ def emptiness_gate(ctx, facts, body, rule, checker, key, what):
 
 
 from ..dataflow import forward_derived  # noqa: E402
+
+
+def recv_fields(body, call, idx=0):
+    """field names on the raw place of argument idx of a call (receiver by default)"""
+    if idx >= len(call.args):
+        return []
+    rp = raw_operand_place(body, call.args[idx])
+    if rp is None:
+        return []
+    # look through one Deref::deref / borrow call (Vec -> slice, Rc -> RefCell ...)
+    out = place_field_names(rp)
+    d = None
+    from ..dataflow import single_def as _sd
+    hops = 0
+    while not out and hops < 4:
+        d = _sd(body, rp[0])
+        if d and d[0] == "call" and d[3].args and (d[3].names() & {
+                "std::ops::Deref::deref", "std::ops::DerefMut::deref_mut", "std::ops::Index::index",
+                "std::ops::IndexMut::index_mut", "std::vec::Vec::as_slice", "core::slice::iter",
+                "std::borrow::Borrow::borrow", "std::convert::AsRef::as_ref"}):
+            rp = raw_operand_place(body, d[3].args[0])
+            if rp is None:
+                break
+            out = place_field_names(rp)
+            hops += 1
+        else:
+            break
+    return out
+
+
+def enumerate_paths(body, start, targets, limit=20000):
+    """all acyclic paths start -> target as lists of (block, edge value or None for otherwise/unconditional)"""
+    targets = set(targets)
+    out = []
+    stack = [(start, [], frozenset([start]))]
+    n = 0
+    while stack:
+        b, path, seen = stack.pop()
+        n += 1
+        if n > limit:
+            raise RuntimeError("path enumeration budget exceeded in %s" % body.path)
+        if b in targets:
+            out.append(path + [(b, "end")])
+            continue
+        t = body.term(b)
+        if t[0] == "switch":
+            edges = [(v, tg) for v, tg in t[2]] + [(None, t[3])]
+        else:
+            edges = [("-", s) for s in body.succs(b)]
+        for v, s in edges:
+            if s in seen:
+                continue
+            if body.term(s)[0] == "unreach":
+                continue
+            stack.append((s, path + [(b, v)], seen | {s}))
+    return out
+
+
+def path_constraints(body, path):
+    """[(term, value, taken_values_excluded)] for the switch edges of a path: value None = otherwise"""
+    out = []
+    for b, v in path:
+        if v in ("-", "end"):
+            continue
+        t = body.term(b)
+        term = operand_term(body, t[1])
+        if v is None:
+            out.append((term, None, [x for x, _ in t[2]]))
+        else:
+            out.append((term, v, None))
+    return out
+
+
+def removes_from_vec(call):
+    n = (call.path or "").split("::")[-1]
+    return n in ("drain", "clear", "truncate", "pop", "remove", "swap_remove", "retain", "split_off", "take",
+                 "dedup", "drain_filter", "extract_if", "retain_mut", "set_len") and \
+        ("std::vec::Vec" in (call.self_ty or "") or call.path in ("std::mem::take", "std::mem::replace", "std::mem::swap"))
